@@ -13,11 +13,16 @@ static char *
 strip(char *name)
 {
 	size_t len;
+	char *copy;
 
 	len = strlen(name);
 	if (len >= 4 && name[0] == '_' && name[1] == '_' && name[len - 2] == '_' && name[len - 1] == '_') {
-		name[len - 2] = '\0';
-		name += 2;
+		/* the spelling may be shared with a macro definition */
+		len -= 4;
+		copy = xmalloc(len + 1);
+		memcpy(copy, name + 2, len);
+		copy[len] = '\0';
+		name = copy;
 	}
 	return name;
 }
